@@ -298,6 +298,11 @@ static int creply_handler(void *arg, const MPT_STRUCT(message) *msg)
 		for (size_t i = 0; i < n && creplen + 3 < sizeof(crep); i++) { crep[creplen++] = d[b[i] >> 4]; crep[creplen++] = d[b[i] & 15]; }
 	}
 	crep[creplen++] = ')'; crep[creplen] = 0;
+	/* tags 800000..899999: the command registers a follow-up request (tag + 1) while it handles its reply */
+	if (msg && (intptr_t) arg >= 800000 && (intptr_t) arg < 900000) {
+		int r = mpt_connection_await(&ccon, creply_handler, (void *) ((intptr_t) arg + 1));
+		creplen += snprintf(crep + creplen, sizeof(crep) - creplen, r < 0 ? "+refused" : "+id=%u", (unsigned) ccon.cid);
+	}
 	/* tags from 900000 on: a command that reports failure */
 	return (intptr_t) arg >= 900000 ? -1 : 0;
 }
@@ -481,7 +486,8 @@ static void sin_op(void)
 	}
 	else if (!strcmp(op, "req") && drv_nw == 4) {
 		uint8_t *dat = 0; size_t dlen = 0; int isnull = 0;
-		if (!sin_in || drv_parse_data(drv_w[2], &dat, &dlen, &isnull) || isnull || dlen > 1000 || !sin_act_ok(drv_w[3], sin_fresh)) { puts("bad-op"); free(dat); return; }
+		int discard = !strcmp(drv_w[3], "discard");   /* dispatch(in, 0, 0): the message is dropped */
+		if (!sin_in || drv_parse_data(drv_w[2], &dat, &dlen, &isnull) || isnull || dlen > 1000 || !(discard || sin_act_ok(drv_w[3], sin_fresh))) { puts("bad-op"); free(dat); return; }
 		sin_fresh = 0;
 		uint8_t wire[2100]; size_t wl = cobs_encode(dat, dlen, wire);
 		free(dat);
@@ -489,11 +495,11 @@ static void sin_op(void)
 		sin_called = sin_ctx = 0; sin_id = 0; sin_res[0] = 0;
 		sin_acts = drv_w[3];
 		int nx = sin_in->_vptr->next(sin_in, POLLIN);
-		int dr = sin_in->_vptr->dispatch(sin_in, sin_handler, 0);
+		int dr = sin_in->_vptr->dispatch(sin_in, discard ? 0 : sin_handler, 0);
 		/* a frame larger than the read buffer arrives in several reads */
-		for (int round = 0, left = 0; !sin_called && !dr && round < 64 && !ioctl(sin_fd0, FIONREAD, &left) && left > 0; round++) {
+		for (int round = 0, left = 0; !discard && !sin_called && !dr && round < 64 && !ioctl(sin_fd0, FIONREAD, &left) && left > 0; round++) {
 			nx = sin_in->_vptr->next(sin_in, POLLIN);
-			dr = sin_in->_vptr->dispatch(sin_in, sin_handler, 0);
+			dr = sin_in->_vptr->dispatch(sin_in, discard ? 0 : sin_handler, 0);
 		}
 		/* flush the answers (a read-only stream has nothing to flush and would block in the fast path for input) */
 		if (!sin_ro) sin_in->_vptr->next(sin_in, POLLIN | POLLOUT);
